@@ -3,6 +3,7 @@ import json
 import os
 import threading
 
+import code_tie
 import vlib
 
 META = {
@@ -31,6 +32,7 @@ META = {
 MODEL = ["theories/Aries/Corr.vo"]
 PROOFS = ["theories/Props/C20.vo"]
 STATEMENT_FILES = ["theories/Props/C20.v", "theories/Aries/AriesGen.v"]
+SEMANTIC_TIE = code_tie.functions("C20")   # Go bodies proved equal to the model (Props/C20Code.v)
 
 SLASH = "/"
 
@@ -685,6 +687,7 @@ def run(ck):
         ck.discharged = list(ck.obligations)
     if ck.thorough and proofs_ok:
         ck.coqchk(["Verif.Props.C20"])
+    code_tie.run(ck, "C20")
 
     binp = ck.build_harness("c20")
     cases, sets = [], {"small": [], "segq": []}
